@@ -63,8 +63,6 @@ def verify(name):
     for label, p in (("with_change", patch), ("without_change", None)):
         s = Scratch(p)
         try:
-            if meta.get("demo"):
-                shutil.copy(os.path.join(d, meta["demo"]), os.path.join(s.dir, meta.get("demo_dir", "."), meta.get("demo_as", meta["demo"])))
             if label == "with_change":
                 rc, out = sh("go build ./... ", s.dir)
                 res["compiles"] = rc == 0
@@ -72,6 +70,8 @@ def verify(name):
                 res["existing_tests_pass"] = rc == 0
                 if rc != 0:
                     res["existing_tests_output"] = out[-1500:]
+            if meta.get("demo"):
+                shutil.copy(os.path.join(d, meta["demo"]), os.path.join(s.dir, meta.get("demo_dir", "."), meta.get("demo_as", meta["demo"])))
             rc, out = sh(meta["demo_cmd"], s.dir, timeout=900)
             res["demo_" + label] = "FAIL" if rc != 0 else "PASS"
             res["demo_output_" + label] = out[-800:]
